@@ -20,6 +20,11 @@ def install(I):
     for n in ('_Znwm', '_Znam', 'malloc', '__cxa_allocate_exception'): M[n] = malloc_
     for n in ('_ZdlPv', '_ZdaPv', 'free', '_ZdlPvm', '_ZdaPvm'): M[n] = free_
     M['__cxa_free_exception'] = lambda I, p: None
+    # function-local statics (single-threaded): guard byte 0 = initialised flag
+    def guard_acquire(I, g): return 0 if I.concretize(I.load(g, i8), 'guard') else 1
+    def guard_release(I, g): I.store(g, i8, 1)
+    M['__cxa_guard_acquire'] = guard_acquire; M['__cxa_guard_release'] = guard_release; M['__cxa_guard_abort'] = lambda I, g: None
+    M['__cxa_atexit'] = lambda I, *a: 0
     def begin_catch(I, p):
         I.caught.append(I.inflight); return p
     M['__cxa_begin_catch'] = begin_catch
